@@ -102,10 +102,19 @@ func checkOneAnnounced(p prog.Program, o prog.Options, st *fw.Stats, announce fu
 	return src, ""
 }
 
+func clip(s string, n int) string {
+	if len(s) > n {
+		return s[:n] + fmt.Sprintf("...(%d bytes)", len(s))
+	}
+	return s
+}
+
+func allProfiles() []prog.Profile { return append(prog.Profiles(), prog.ScaleProfile()) }
+
 func worker(c *fw.Ctx) *fw.Stats {
 	st := fw.NewStats()
 	maxLevel := map[string]int{}
-	for _, pf := range prog.Profiles() {
+	for _, pf := range allProfiles() {
 		maxLevel[pf.Name] = pf.MaxLevel
 		if !c.Thorough() {
 			switch pf.Name {
@@ -124,7 +133,7 @@ func worker(c *fw.Ctx) *fw.Stats {
 	}
 	// iterative deepening across profiles: level 1 of every profile, then level 2, ...
 	for level := 1; level <= 8; level++ {
-		for _, pf := range prog.Profiles() {
+		for _, pf := range allProfiles() {
 			if level > maxLevel[pf.Name] {
 				continue
 			}
@@ -160,7 +169,7 @@ func worker(c *fw.Ctx) *fw.Stats {
 					if diff != "" && nviol < 10 {
 						nviol++
 						k := kase{Profile: p.Profile, Level: level, Index: idx, Opts: o, Src: src}
-						st.Violate(fmt.Sprintf("%s/L%d/#%d/%s", p.Profile, level, idx, o.String()), diff+" | program: "+src, k)
+						st.Violate(fmt.Sprintf("%s/L%d/#%d/%s", p.Profile, level, idx, o.String()), clip(diff, 3000)+" | program: "+clip(src, 3000), k)
 					}
 				}
 				return true
@@ -204,7 +213,7 @@ func replay(c *fw.Ctx, raw json.RawMessage) []fw.Viol {
 	if err := json.Unmarshal(raw, &k); err != nil {
 		fw.Fatal("bad case: %v", err)
 	}
-	for _, pf := range prog.Profiles() {
+	for _, pf := range allProfiles() {
 		if pf.Name != k.Profile {
 			continue
 		}
@@ -234,7 +243,7 @@ func init() {
 	fw.Register(&fw.Prop{
 		ID:    "C01",
 		Level: "exploration",
-		Rule: "every program of each grammar profile (expr, plus, assign, control, scope, call, load, comp, fold, escape, alias, chains) of size level n, n = 1, 2, ... (iterative deepening), " +
+		Rule: "every program of each grammar profile (expr, plus, assign, control, scope, call, load, comp, fold, escape, alias, chains; scale: 15 templates in which one table of the compiled form - globals, locals, constants, functions, free variables, defaults, arguments, jump distances - has n members, n on both sides of 2^7, 2^8, 2^14 and 2^16) of size level n, n = 1, 2, ... (iterative deepening), " +
 			"rendered to source and executed by the production pipeline and by the reference evaluator under the needed options, all options on, and (every 64th) all 16 combinations of set/while/recursion/top-level control; " +
 			"compared: probe trace with argument values, final globals with aliasing, success/failure and the position of the failing operation; " +
 			"every statically valid program is also initialised a second time from the same compiled Program on the same thread and must observe the same; non-trivial = program runs in which at least one probe fired or the program failed",
